@@ -201,3 +201,99 @@ func ZZVerifC01Restart() {
 	}
 	rt.Reach("end")
 }
+
+// zzFocusedOp draws from one small operation family plus the administrative operations, so that deeper
+// histories (write after snapshot, delete then compact, overwrite-delete after snapshot ...) stay tractable.
+func zzFocusedOp(e *Engine, keys [2]string, family int) {
+	switch family {
+	case 0: // key-value
+		switch rt.IntRange("fop", 0, 3) {
+		case 0:
+			e.KVSet(keys[0], rt.Bytes("val", 1))
+		case 1:
+			e.KVDelete(keys[0])
+		case 2:
+			rt.Assert(e.SaveSnapshot() == nil, "SaveSnapshot succeeds")
+			rt.Reach("snapshot")
+		case 3:
+			rt.Assert(e.RewriteAOF() == nil, "RewriteAOF succeeds")
+			rt.Reach("rewrite")
+		}
+	case 1: // one vector id: add / delete / metadata merge
+		switch rt.IntRange("fop", 0, 4) {
+		case 0:
+			e.VAdd("i0", "a", []float32{rt.Float32("vec")}, zzMeta(rt.IntRange("meta", 0, 2)))
+		case 1:
+			e.VDelete("i0", "a")
+		case 2:
+			e.VSetMetadata("i0", "a", zzMeta(3))
+		case 3:
+			rt.Assert(e.SaveSnapshot() == nil, "SaveSnapshot succeeds")
+			rt.Reach("snapshot")
+		case 4:
+			rt.Assert(e.RewriteAOF() == nil, "RewriteAOF succeeds")
+			rt.Reach("rewrite")
+		}
+	case 2: // one edge: link (two weights) / soft unlink / hard unlink
+		switch rt.IntRange("fop", 0, 4) {
+		case 0:
+			w := float32(1.0)
+			if rt.IntRange("w", 0, 1) == 1 {
+				w = 0.25
+			}
+			e.VLink("i0", "a", "b", "r", "", w, nil)
+		case 1:
+			e.VUnlink("i0", "a", "b", "r", "", false)
+		case 2:
+			e.VUnlink("i0", "a", "b", "r", "", true)
+		case 3:
+			rt.Assert(e.SaveSnapshot() == nil, "SaveSnapshot succeeds")
+			rt.Reach("snapshot")
+		case 4:
+			rt.Assert(e.RewriteAOF() == nil, "RewriteAOF succeeds")
+			rt.Reach("rewrite")
+		}
+	case 3: // index life cycle
+		switch rt.IntRange("fop", 0, 4) {
+		case 0:
+			e.VCreate("i1", distance.Euclidean, 2, 4, distance.Float32, "", nil, nil, nil)
+		case 1:
+			e.VDeleteIndex("i1")
+		case 2:
+			e.VAdd("i1", "a", []float32{rt.Float32("vec")}, nil)
+		case 3:
+			rt.Assert(e.SaveSnapshot() == nil, "SaveSnapshot succeeds")
+			rt.Reach("snapshot")
+		case 4:
+			rt.Assert(e.RewriteAOF() == nil, "RewriteAOF succeeds")
+			rt.Reach("rewrite")
+		}
+	}
+}
+
+// ZZVerifC01Focused: deeper histories within one operation family, each interleaved with SaveSnapshot and
+// RewriteAOF at every position, followed by one or two restarts.
+func ZZVerifC01Focused() {
+	keys := [2]string{"k0", "k1"}
+	e := zzOpen()
+	rt.Assert(e.VCreate("i0", distance.Euclidean, 2, 4, distance.Float32, "", nil, nil, nil) == nil, "prelude: VCreate succeeds")
+	family := rt.IntRange("family", 0, 3)
+	depth := rt.Param("DEPTH", 3)
+	if family == 0 {
+		depth++ // the key-value family is small: one level deeper
+	}
+	n := rt.IntRange("n", 1, depth)
+	for i := 0; i < n; i++ {
+		zzFocusedOp(e, keys, family)
+		e.wg.Wait()
+	}
+	before := zzObserve(e, keys)
+	rt.Assert(e.AOF.Flush() == nil, "final flush succeeds")
+	e.AOF.Close()
+	e2 := zzOpen()
+	zzCompare(before, zzObserve(e2, keys), "restart")
+	e2.AOF.Close()
+	e3 := zzOpen()
+	zzCompare(before, zzObserve(e3, keys), "second restart")
+	rt.Reach("end")
+}
